@@ -278,7 +278,7 @@ namespace fastscapelib
             {
                 using neighbors_type = typename graph_impl_type::grid_type::neighbors_type;
 
-                double slope;
+                double slope, slope_max;
                 double weight, weights_sum;
                 neighbors_type neighbors;
                 size_type nrec;
@@ -306,6 +306,7 @@ namespace fastscapelib
 
                     nrec = 0;
                     weights_sum = 0;
+                    slope_max = 0;
 
                     for (auto n : grid.neighbors(i, neighbors))
                     {
@@ -313,19 +314,28 @@ namespace fastscapelib
                             && elevation.flat(i) > elevation.flat(n.idx))
                         {
                             slope = (elevation.flat(i) - elevation.flat(n.idx)) / n.distance;
+                            slope_max = std::max(slope_max, slope);
 
                             receivers(i, nrec) = n.idx;
                             dist2receivers(i, nrec) = n.distance;
-
-                            weight = std::pow(slope, this->m_op_ptr->m_slope_exp);
-                            weights_sum += weight;
-                            receivers_weight(i, nrec) = weight;
+                            receivers_weight(i, nrec) = slope;
 
                             // update donors (note: not thread safe if later parallelization)
                             donors(n.idx, donors_count(n.idx)++) = i;
 
                             nrec++;
                         }
+                    }
+
+                    // compute weights relative to the steepest slope so that neither
+                    // very small nor very large slopes yield non-finite weights
+                    for (size_type j = 0; j < nrec; j++)
+                    {
+                        weight = slope_max > 0 ? std::pow(receivers_weight(i, j) / slope_max,
+                                                          this->m_op_ptr->m_slope_exp)
+                                               : 1.0;
+                        weights_sum += weight;
+                        receivers_weight(i, j) = weight;
                     }
 
                     if (nrec == 0)
